@@ -80,10 +80,13 @@ Proof.
       destruct (pred_pass K S0 t P) as [it'|] eqn:E; [|discriminate]. apply (IH it' eq_refl _ _ Hin).
 Qed.
 
+Lemma accept_ids S P fs : verify_with K S P fs = Accept -> ids_ok K P = true.
+Proof. unfold verify_with, items. destruct (ids_ok K P); [reflexivity|discriminate]. Qed.
+
 Lemma accept_inv S P fs : verify_with K S P fs = Accept ->
   exists a b, sig_pass K S P = Some a /\ pred_pass K S S P = Some b /\ fs (Some (a ++ b)) = true /\ post K S P = true.
 Proof.
-  unfold verify_with, items. destruct (sig_pass K S P) as [a|]; [|discriminate].
+  unfold verify_with, items. destruct (ids_ok K P); [|discriminate]. destruct (sig_pass K S P) as [a|]; [|discriminate].
   destruct (pred_pass K S S P) as [b|]; [|discriminate].
   destruct (fs (Some (a ++ b))) eqn:F; [|discriminate]. destruct (post K S P) eqn:Po; [|discriminate].
   intros _. exists a, b. repeat split; assumption.
@@ -108,7 +111,7 @@ Theorem accept_fs S P fs : verify_with K S P fs = Accept ->
   exists it, items K S P = Some it /\ fs (Some it) = true.
 Proof.
   intros H. destruct (accept_inv S P fs H) as [a [b [Ha [Hb [Hf _]]]]]. exists (a ++ b).
-  unfold items. rewrite Ha, Hb. split; [reflexivity|exact Hf].
+  unfold items. rewrite (accept_ids S P fs H), Ha, Hb. split; [reflexivity|exact Hf].
 Qed.
 
 (** response-vector length is forced *)
@@ -180,7 +183,7 @@ Theorem accept_commitment_link S P fs : verify_with K S P fs = Accept ->
 Proof.
   intros H sid ref claim gm gb Hin. destruct (accept_inv S P fs H) as [a [b [Ha [Hb [Hf _]]]]].
   destruct (pred_pass_comm S S P b Hb _ _ _ _ _ Hin) as [pid [cm [bp [hid [mp [A [B [C [D E]]]]]]]]].
-  exists pid, cm, bp, hid, mp, (a ++ b). unfold items. rewrite Ha, Hb.
+  exists pid, cm, bp, hid, mp, (a ++ b). unfold items. rewrite (accept_ids S P fs H), Ha, Hb.
   repeat split; try assumption; apply in_or_app; right; assumption.
 Qed.
 End PresP.
